@@ -241,6 +241,7 @@ type Module struct {
 	par       []AssetCfg // last accepted parameter set, in message order
 	donations map[string]*big.Int
 	prevTime  time.Time
+	begun     bool
 	touched   map[string]bool // ids whose model state changed in the current block
 	started   bool
 	// escrowLive: the module itself has used its account (an accepted escrowing creation or
